@@ -234,6 +234,83 @@ def run_reuse(ctx):
     ctx.traces_vs_impl += len(lines)
 
 
+def run_reuse_sources(ctx):
+    """ONE frame object written through connections with DIFFERENT configured key sources (two live connections used
+    alternately; one connection after set_mask_key; default source then custom and back): the key on the wire is drawn, once,
+    from the source configured on the connection that writes — at the time it writes.  Oracle only."""
+    import os
+    import rx
+    import websocket
+    from websocket import ABNF
+    rnd = ctx.rng("reuse-sources")
+    for it in range(120 if ctx.thorough() else 30):
+        n = rnd.randint(2, 5)
+        data = rx.payload(rnd, rnd.choice([0, 1, 5, 126]), "bin")
+        fop = rnd.choice([2, 2, 9]) if len(data) <= 125 else 2
+        srcs = {}
+
+        def mk(name):
+            calls = []
+
+            def src(k, name=name, calls=calls):
+                calls.append(k)
+                return bytes([ord(name), 0x30 + len(calls), 0x5f, ord(name)])
+            srcs[name] = (src, calls)
+            return src
+        for nm in "ABC":
+            mk(nm)
+        old = os.urandom
+        dcalls = []
+
+        def urandom(k):
+            dcalls.append(k)
+            return bytes([0x64, 0x30 + len(dcalls), 0x5f, 0x64])[:k] if k == 4 else old(k)
+        conns = []
+        for _ in range(2):
+            ws = websocket.WebSocket()
+            ws.sock, ws.connected = simnet.SimSocket([]), True
+            conns.append(ws)
+        plan, wires, want = [], [], []
+        os.urandom = urandom
+        try:
+            frame = ABNF.create_frame(data, fop)         # (a frame object takes the default source when it is made)
+            for j in range(n):
+                ci = rnd.randrange(2)
+                # d = the default source (fresh object, set_mask_key never called) — only while the frame object has not been
+                # through a connection with a configured source: send_frame hands the connection's source to the frame
+                # object, and a connection without one leaves the frame's own source alone (not judged here)
+                srcname = rnd.choice("ABCd" if all(p_.endswith(":d") for p_ in plan) else "ABC")
+                ws = conns[ci]
+                if srcname == "d":
+                    if getattr(ws, "_vp_src", "d") != "d":
+                        # a connection keeps its configured source; the default one is only seen on a fresh object
+                        ws = websocket.WebSocket()
+                        ws.sock, ws.connected = simnet.SimSocket([]), True
+                        conns[ci] = ws
+                else:
+                    ws.set_mask_key(srcs[srcname][0])
+                ws._vp_src = srcname
+                before = len(ws.sock.sent)
+                ncalls = len(dcalls) if srcname == "d" else len(srcs[srcname][1])
+                ws.send_frame(frame)
+                wire = bytes(ws.sock.sent[before:])
+                after = len(dcalls) if srcname == "d" else len(srcs[srcname][1])
+                plan.append(f"conn{ci}:{srcname}")
+                key = wire[2 + (0 if len(data) < 126 else 2):][:4]
+                exp = bytes([0x64 if srcname == "d" else ord(srcname), 0x30 + after, 0x5f, 0x64 if srcname == "d" else ord(srcname)])
+                wires.append((key, exp, after - ncalls))
+        finally:
+            os.urandom = old
+        ctx.case(key=("reuse-sources", it, tuple(plan)), nontrivial=len(set(plan)) > 1, cls=f"reuse-across-key-sources:n={n}")
+        inp = {"op": "one frame object, send_frame through " + " , ".join(plan), "payload_len": len(data)}
+        for j, (key, exp, drawn) in enumerate(wires):
+            if drawn != 1 or key != exp:
+                ctx.violate("key-drawn-once-per-frame", "reused-frame-object-key-from-another-source", dict(inp, write=j),
+                            f"key {exp.hex()} drawn once from the writing connection's source", f"key {key.hex()}, draws from that source: {drawn}",
+                            size=n)
+                break
+
+
 def run(ctx):
     ctx.rule = ("one send per case: payload length (quick: 0..300, 65400..65700, 40 random; thorough: every 0..70000 + "
                 "sampled to 2^22) x opcode (all six when <=125 bytes) x FIN x key source (set_mask_key bytes / ASCII str / "
@@ -292,6 +369,7 @@ def run(ctx):
             ctx.violate(clause, cause, inp, exp, obs, size=size_)
         ctx.traces_vs_impl += len(res["cases"])
     run_reuse(ctx)
+    run_reuse_sources(ctx)
 
 
 def _to_str(b):
